@@ -172,6 +172,13 @@ namespace DFS
     return sector_count(start + sectors_for_this_file - 1);
   }
 
+  sector_count_type CatalogEntry::end_sector() const
+  {
+    if (0 == file_length())
+      return start_sector();
+    return sector_count(last_sector() + 1);
+  }
+
   bool CatalogEntry::visit_file_body_piecewise
   (DataAccess& media,
    std::function<bool(const byte* begin, const byte* end)> visitor) const
@@ -493,7 +500,7 @@ CatalogFragment::CatalogFragment(DFS::Format format,
 	file_name.dir = entry.directory();
 	file_name.name = entry.name();
 	out->add_file_sectors(DFS::sector_count(data_origin_lba + entry.start_sector()),
-			      DFS::sector_count(data_origin_lba + entry.last_sector() + 1),
+			      DFS::sector_count(data_origin_lba + entry.end_sector()),
 			      file_name);
       }
   }
